@@ -62,7 +62,31 @@ def replay_factory(args):
     return {'replayed': bool(bad), 'detail': 'native FactoryState %s -> %s ; violated %s' % (args, obs, bad), 'replay': {'which': 'factory', 'args': args}}
 
 
+def replay_finished(wq, draining, fq):
+    out, _, rc, err = native.run('factory_finished', queue=[5 + (i % 2) for i in range(wq)], draining=1 if draining else 0, fq=fq, timeout=30)
+    if rc != 0:
+        raise RuntimeError('native factory_finished failed: ' + err[-300:])
+    d = dict(x.split(':', 1) for x in out['out'].split(';'))
+    ids = lambda s_: [int(x) for x in s_.split('+') if x]
+    obs = {'inpool': d['inpool'] == '1', 'wqueue': ids(d['wqueue']), 'fqueue': ids(d['fqueue']), 'handled': ids(d['handled']), 'routed': ids(d['routed']),
+           'discards': [(x.split(':')[0], int(x.split(':')[1])) for x in d['discards'].split('+') if x], 'worker_alive': d['worker_alive'] == '1'}
+    before = list(range(wq)) + [50 + i for i in range(fq)]
+    bad = []
+    after = obs['wqueue'] + obs['fqueue'] + obs['handled'] + obs['routed'] + [m for _, m in obs['discards']]
+    if sorted(after) != sorted(before):
+        bad.append('every_job_has_exactly_one_fate: before %s -> worker queue %s, backlog %s, really handled by the worker %s, routed %s, discarded %s' % (
+            before, obs['wqueue'], obs['fqueue'], obs['handled'], obs['routed'], obs['discards']))
+    if not obs['inpool'] and not draining:
+        bad.append('only_a_draining_worker_is_retired')
+    if obs['inpool'] != obs['worker_alive']:
+        bad.append('retired_iff_removed_from_the_pool')
+    return {'replayed': bool(bad), 'detail': 'native worker_finished_job(worker queue %d, draining %s, backlog %d) -> %s ; violated %s' % (wq, draining, fq, obs, bad),
+            'replay': {'which': 'finished', 'wq': wq, 'draining': draining, 'fq': fq}}
+
+
 def replay_file(rp):
+    if rp['which'] == 'finished':
+        return replay_finished(rp['wq'], rp['draining'], rp['fq'])
     if rp['which'] == 'worker':
         return replay_worker(rp['rp'], rp['dead'], rp['expired'])
     return replay_factory(rp['args'])
